@@ -5,7 +5,7 @@
    clamp the theorems cover points exactly on the lowest line: the point inserted at longitude -pi by the
    antimeridian split on a global grid, a pole on a grid starting at -pi/2, altitude 0. *)
 From Coq Require Import ZArith List Bool Reals Lra Lia.
-From AV Require Import lib.Num model.C04_Model proofs.C04_Proofs proofs.C05_Sorting proofs.C05_Cells proofs.C05_Proofs.
+From AV Require Import lib.Num lib.FloatMath model.C04_Model proofs.C04_Proofs proofs.C05_Sorting proofs.C05_Cells proofs.C05_Proofs proofs.C05_Witness64.
 Import ListNotations.
 Local Open Scope R_scope.
 
@@ -155,7 +155,7 @@ Theorem C05_antimeridian_point_on_line :
     let lon_cross := if (sg =? -1)%Z then @pi RNum else - @pi RNum in
     let lon_end := if (sg =? -1)%Z then lon1 + 2 * @pi RNum else lon1 - 2 * @pi RNum in
     lon_end <> lon0 ->
-    (@crossing_lat RNum true sg (lat0, lon0) (lat1, lon1) - lat0) * (lon_end - lon0)
+    (@crossing_lat RNum true false sg (lat0, lon0) (lat1, lon1) - lat0) * (lon_end - lon0)
     = (lon_cross - lon0) * (lat1 - lat0).
 Proof. exact crossing_lat_on_line. Qed.
 Print Assumptions C05_antimeridian_point_on_line.
@@ -165,7 +165,7 @@ Theorem C05_antimeridian_point_as_coded_refuted :
     let lon_cross := if (sg =? -1)%Z then @pi RNum else - @pi RNum in
     let lon_end := if (sg =? -1)%Z then lon1 + 2 * @pi RNum else lon1 - 2 * @pi RNum in
     lon_end <> lon0 /\
-    (@crossing_lat RNum false sg (lat0, lon0) (lat1, lon1) - lat0) * (lon_end - lon0)
+    (@crossing_lat RNum false false sg (lat0, lon0) (lat1, lon1) - lat0) * (lon_end - lon0)
     <> (lon_cross - lon0) * (lat1 - lat0).
 Proof. exact crossing_lat_as_coded_refuted. Qed.
 Print Assumptions C05_antimeridian_point_as_coded_refuted.
@@ -192,40 +192,72 @@ Print Assumptions C05_part_contained.
    created by the crossing, whose inserted end point sits on longitude +-pi (the lowest line of a global grid)
    — satisfies containment, path order and chain shape *)
 Theorem C05_crossing_contained :
-  forall clamp fixdl (glat glon galt gtime : list R) (pts : list (R * R)) alts times states,
+  forall clamp fixdl fixe (glat glon galt gtime : list R) (pts : list (R * R)) alts times states,
     incr glat -> incr glon ->
     count_nonzero (@crossings RNum (map snd pts)) = 1%nat ->
     let cr := @crossings RNum (map snd pts) in
     let i := first_nonzero cr O in
     let sg := nth i cr 0%Z in
-    let latx := @crossing_lat RNum fixdl sg (nth i pts (0, 0)) (nth (S i) pts (0, 0)) in
+    let latx := @crossing_lat RNum fixdl fixe sg (nth i pts (0, 0)) (nth (S i) pts (0, 0)) in
     Forall (pt_ok clamp glat glon) pts ->
     okx clamp glat latx -> okx clamp glon (@exit_lon RNum sg) -> okx clamp glon (@entry_lon RNum sg) ->
     exists r1 r2,
-      @geometry RNum clamp fixdl glat glon galt gtime pts alts times states = (1%Z, i, [r1; r2]) /\
+      @geometry RNum clamp fixdl fixe glat glon galt gtime pts alts times states = (1%Z, i, [r1; r2]) /\
       Forall (geom_ok glat glon) (snd r1) /\ Forall (geom_ok glat glon) (snd r2).
 Proof. exact crossing_contained. Qed.
 Print Assumptions C05_crossing_contained.
 
-(* the repaired crossing latitude lies between the latitudes of the crossing segment (hence is admissible
-   whenever they are) *)
+(* FC04e — the crossing latitude.  Repaired (clamped between the two end latitudes): between them BY CONSTRUCTION,
+   for any input, hence admissible whenever the end points are. *)
 Theorem C05_crossing_latitude_between :
+  forall fixdl fixe_unused sg (lat0 lon0 lat1 lon1 : R),
+    fixe_unused = true ->
+    Rmin lat0 lat1 <= @crossing_lat RNum fixdl fixe_unused sg (lat0, lon0) (lat1, lon1) <= Rmax lat0 lat1.
+Proof. intros fixdl f sg lat0 lon0 lat1 lon1 ->. apply crossing_lat_clamped_between. Qed.
+Print Assumptions C05_crossing_latitude_between.
+
+(* for a real crossing the clamp changes nothing over the reals (the inserted point stays on the segment's line,
+   C05_antimeridian_point_on_line) ... *)
+Theorem C05_crossing_latitude_clamp_is_identity_on_crossings :
   forall sg (lat0 lon0 lat1 lon1 : R),
     - @pi RNum <= lon0 <= @pi RNum -> - @pi RNum <= lon1 <= @pi RNum ->
     (sg = (-1)%Z -> lon1 - lon0 < - @pi RNum) -> (sg <> (-1)%Z -> @pi RNum < lon1 - lon0) ->
-    Rmin lat0 lat1 <= @crossing_lat RNum true sg (lat0, lon0) (lat1, lon1) <= Rmax lat0 lat1.
+    @crossing_lat RNum true true sg (lat0, lon0) (lat1, lon1) = @crossing_lat RNum true false sg (lat0, lon0) (lat1, lon1).
+Proof. exact crossing_lat_clamp_id. Qed.
+Print Assumptions C05_crossing_latitude_clamp_is_identity_on_crossings.
+
+(* ... and the unclamped reading is between the end latitudes only under the crossing hypotheses and exact arithmetic *)
+Theorem C05_crossing_latitude_between_unclamped :
+  forall sg (lat0 lon0 lat1 lon1 : R),
+    - @pi RNum <= lon0 <= @pi RNum -> - @pi RNum <= lon1 <= @pi RNum ->
+    (sg = (-1)%Z -> lon1 - lon0 < - @pi RNum) -> (sg <> (-1)%Z -> @pi RNum < lon1 - lon0) ->
+    Rmin lat0 lat1 <= @crossing_lat RNum true false sg (lat0, lon0) (lat1, lon1) <= Rmax lat0 lat1.
 Proof. exact crossing_lat_between. Qed.
-Print Assumptions C05_crossing_latitude_between.
+Print Assumptions C05_crossing_latitude_between_unclamped.
+
+(* before the fix: betweenness is not a property of the formula (real-number counter-example outside the crossing
+   hypotheses) and fails in binary64 for a crossing segment ending on a pole — kernel-float witness *)
+Theorem C05_crossing_latitude_before_fix_refuted :
+  exists sg lat0 lon0 lat1 lon1,
+    ~ (Rmin lat0 lat1 <= @crossing_lat RNum true false sg (lat0, lon0) (lat1, lon1) <= Rmax lat0 lat1).
+Proof. exact crossing_lat_before_fix_refuted. Qed.
+Print Assumptions C05_crossing_latitude_before_fix_refuted.
+
+Theorem C05_crossing_latitude_before_fix_overshoots_pole_binary64 :
+  PrimFloat.ltb (@crossing_lat FNum true false 1%Z (w_lat0, w_lon0) (w_lat1, w_lon1)) w_lat1 = true /\
+  PrimFloat.eqb (@crossing_lat FNum true true 1%Z (w_lat0, w_lon0) (w_lat1, w_lon1)) w_lat1 = true.
+Proof. exact (conj crossing_lat_before_fix_overshoots_pole_binary64 crossing_lat_clamped_is_end_latitude_binary64). Qed.
+Print Assumptions C05_crossing_latitude_before_fix_overshoots_pole_binary64.
 
 (* lengths_match for the crossing case: both parts *)
 Theorem C05_crossing_lengths_match :
-  forall clamp fixdl (glat glon galt gtime : list R) (pts : list (R * R)) (alts times : list R)
+  forall clamp fixdl fixe (glat glon galt gtime : list R) (pts : list (R * R)) (alts times : list R)
          (states : list (list R)),
     count_nonzero (@crossings RNum (map snd pts)) = 1%nat ->
     length alts = length pts -> length times = length pts ->
     Forall (fun v => length v = length pts) states ->
     exists i r1 r2,
-      @geometry RNum clamp fixdl glat glon galt gtime pts (Some alts) (Some times) states = (1%Z, i, [r1; r2]) /\
+      @geometry RNum clamp fixdl fixe glat glon galt gtime pts (Some alts) (Some times) states = (1%Z, i, [r1; r2]) /\
       lengths_ok r1 /\ lengths_ok r2.
 Proof. exact crossing_lengths_match. Qed.
 Print Assumptions C05_crossing_lengths_match.
